@@ -43,7 +43,12 @@ def gen(seed, idx, tier):
   r = _rng.gen("c38", seed, idx)
   feats = {"plane": True, "free": True, "dense_contacts": True, "tiny": False, "eq_connect": False, "eq_weld": False, "mocap": False}
   feats["pile"] = False
-  spec, rejected = scen.pick_model(seed, idx, features=feats, size=str(r.choice(["s", "m"])), curated_p=0.0, accept=_accept, tries=60)
+  script = bool(_rng.gen("c38script", seed, idx).random() < 0.5)
+  if script:
+    # scripted wake sequences want several free trees and DOF addresses beyond the padded size of a small capacity (nv > 16 + one tree)
+    feats.update({"free": True, "actuators_off": True, "act": False})
+  spec, rejected = scen.pick_model(seed, idx, features=feats, size=str(r.choice(["s", "m"])), curated_p=0.0,
+                                   accept=(lambda mm: mm.ntree >= 3 and 22 <= mm.nv <= 48) if script else _accept, tries=60)
   spec["opt"]["solver"] = "newton"
   spec["opt"]["sleep_tolerance"] = float(r.choice([0.05, 0.3, 1.0, 3.0]))
   spec["opt"]["disableflags"] = int(spec["opt"].get("disableflags", 0)) & ~262144
@@ -52,7 +57,7 @@ def gen(seed, idx, tier):
     "init": {"seed": int(r.integers(1 << 30)), "pos_noise": 0.03, "vel_noise": 0.2},
     "hist_seed": int(r.integers(1 << 30)), "K": int(r.integers(20, 45)) if tier != "thorough" else int(r.integers(25, 90)), "kick_p": float(r.choice([0.02, 0.05, 0.1])),
     "value_seed": int(r.integers(1 << 30)),
-    "wake_script": bool(_rng.gen("c38script", seed, idx).random() < 0.5), "settle": int(_rng.gen("c38settle", seed, idx).integers(25, 45)),
+    "wake_script": script, "settle": int(_rng.gen("c38settle", seed, idx).integers(25, 45)),
   }  # fmt: skip
 
 
@@ -128,6 +133,14 @@ def run(sc):
 
   never = np.array([int(p_) in (int(_mj.mjtSleepPolicy.mjSLEEP_AUTO_NEVER), int(_mj.mjtSleepPolicy.mjSLEEP_NEVER)) for p_ in mjm.tree_sleep_policy])
   next_kick = [mjm.ntree - 1] * nworld
+  qsel_of = []
+  for t_ in range(mjm.ntree):
+    qs = np.zeros(mjm.nq, dtype=bool)
+    for j_ in range(mjm.njnt):
+      if mjm.body_treeid[mjm.jnt_bodyid[j_]] == t_:
+        a_ = mjm.jnt_qposadr[j_]
+        qs[a_ : a_ + {0: 7, 1: 4, 2: 1, 3: 1}[int(mjm.jnt_type[j_])]] = True
+    qsel_of.append(qs)
   for k in range(K):
     ops = _ops(sc, mjm, nworld, k)
     if sc.get("wake_script"):
@@ -240,6 +253,23 @@ def run(sc):
             alive[c][w] = False
             continue
         if bits & core.OVERFLOW_CAPACITY:
+          alive[c][w] = False
+          continue
+        # frozen DOFs under a DOF capacity: a tree asleep before the step, at the stage tap and after it (this variant is in bit-exact
+        # lock-step with the ample twin up to here, so the twin's sleep observations are its own) keeps qpos and qvel bit for bit and has
+        # zero qacc - exactly, not to a tolerance: a drift of 1e-5 per step is what a stale compaction map looks like
+        frozen_bad = None
+        for t in range(mjm.ntree):
+          if (not pre_awake[w, t]) and (not mid_awake[w, t]) and (not post_awake[w, t]):
+            dsel = dof_tree == t
+            if np.any(sc_["qacc"][w][dsel] != 0) or not core.bits_equal(sc_["qvel"][w][dsel], pre_q[1][w][dsel]) or not core.bits_equal(sc_["qpos"][w][qsel_of[t]], pre_q[0][w][qsel_of[t]]):
+              frozen_bad = t
+              break
+        if frozen_bad is not None:
+          t = frozen_bad
+          viols.append({"class": {"oracle": "frozen_dofs_under_capacity", "relation": rel, "jacobian": jac},
+                        "detail": {"step": k, "world": w, "nvmax": c, "tree": t, "active_dofs": need, "qacc": sc_["qacc"][w][dof_tree == t].tolist(),
+                                   "max_dqpos": float(np.max(np.abs(sc_["qpos"][w][qsel_of[t]] - pre_q[0][w][qsel_of[t]])))}})
           alive[c][w] = False
           continue
         vc = {f: sc_[f][w] for f in CMP + ["nefc", "solver_niter"]}
